@@ -226,6 +226,20 @@ func c17EC(x *engine.Ctx, c *c17Case) {
 		}
 		x.Eval(1)
 	}
+	// tools that strip leading zero octets of the scalar (old OpenSSL): tolerated on input, must yield the same key
+	min := d.Bytes()
+	if len(min) < (ci.Curve.Params().N.BitLen()+7)/8 {
+		for _, pub := range []bool{false, true} {
+			der := refx509.BuildECPKCS8(ci, d, refx509.ECEncoding{OuterOID: true, Public: pub, ScalarLen: len(min)})
+			gk, err := cert.ParsePKCS8PrivateKey(der)
+			if err != nil {
+				x.Outcome("minimal-length scalar refused (allowed)")
+			} else if ek, ok := gk.(*ecdsa.PrivateKey); !ok || !ecEqual(key, ek) {
+				x.Violation("C17/interop/minimal-length-scalar-read-as-different-key "+feat, fmt.Sprintf("scalar %x encoded in %d octets (public=%v): read back as %#v", d, len(min), pub, gk))
+			}
+			x.Eval(1)
+		}
+	}
 	x.Outcome("ec ok " + c.Curve)
 }
 
@@ -466,6 +480,7 @@ func c17Reject(x *engine.Ctx, c *c17Case) {
 	}
 	var key any
 	var err error
+	leaked := ""
 	func() {
 		defer func() {
 			if r := recover(); r != nil {
@@ -475,16 +490,25 @@ func c17Reject(x *engine.Ctx, c *c17Case) {
 		}()
 		if !pemLevel {
 			key, err = cert.ParsePKCS8PrivateKey(der)
+			if err != nil && key != nil {
+				leaked = fmt.Sprintf("ParsePKCS8PrivateKey returned an error AND a key object %T", key)
+			}
+		}
+		// also through the PEM reader: an error there must not come with a key object either
+		pf, perr := cert.ReadPem(refx509.EncodePem("PRIVATE KEY", der))
+		if perr != nil && pf.PrivateKey != nil {
+			leaked = fmt.Sprintf("ReadPem returned an error AND PrivateKey = %T", pf.PrivateKey)
 		}
 		if err == nil {
-			// also through the PEM reader
-			var pf cert.PemFileContent
-			pf, err = cert.ReadPem(refx509.EncodePem("PRIVATE KEY", der))
+			err = perr
 			if err == nil {
 				key = pf.PrivateKey
 			}
 		}
 	}()
+	if leaked != "" {
+		x.Violation("C17/reject/error-but-key-object-returned "+what, fmt.Sprintf("invalid key input (%s, %s%s prefix=%d): %s - callers that keep partial results take it for a key", c.Reject, c.Curve, c.RSA, c.Prefix, leaked))
+	}
 	if err == nil {
 		x.Violation("C17/reject/accepted "+what, fmt.Sprintf("invalid key input (%s, %s%s prefix=%d, %d bytes %s) was not rejected: returned %T", c.Reject, c.Curve, c.RSA, c.Prefix, len(der), hexShort(der), key))
 		return
